@@ -411,6 +411,15 @@ def job_docs(kind, arg):
         for text in DS.single_edits(DS.edit_bases(mc)[bi]):
             check_document(text, acc, 'edits')
             last = text
+    elif kind == 'repetition':
+        for (what, n), f in G.repetition_documents():
+            if what != G.REPEATABLE[arg[0]] or n not in (1, 2, 3, 4, 10, 11):
+                continue
+            text, exp, r = M.render(f)
+            if not M.roles_ok(r):
+                continue
+            check_document(text, acc, 'repetition')
+            last = text
     elif kind == 'pairs':
         shard, nshards, quick = arg
         kept = 0
@@ -458,6 +467,7 @@ def run(ctx):
               [job_docs.job('bigfiles', (b,)) for b in ctx.pick((1024, 4096, 8192, 16384, 65536), (512, 1024, 2048, 4096, 8192, 16384, 32768, 65536, 131072, 262144, 1048576))])
     mc = ctx.pick(100, 250)
     ctx.level('single edits of corpus and base documents <= %d characters' % mc, [job_docs.job('edits', (mc, bi)) for bi in range(len(DS.edit_bases(mc)))])
+    ctx.level('one construct repeated 1..4, 10, 11 times', [job_docs.job('repetition', (i,)) for i in range(len(G.REPEATABLE))])
     ctx.level('pairs of feature modules', [job_docs.job('pairs', (s, 64, ctx.quick)) for s in range(64)])
     n = ctx.pick(4, 6)
     ctx.level('structure documents N<=%d' % n, [job_docs.job('structure', (n, s, 192)) for s in range(192)])
